@@ -26,3 +26,42 @@ pub mod keys;
 pub mod params;
 pub mod txlab;
 pub mod wire;
+
+/// pallas-validate has a stray `dbg!` (babbage check_minting) that writes to
+/// stderr on every minting case; the explorers run with stderr pointed at
+/// /dev/null and restore it before anything is reported.
+pub mod quiet {
+    use std::sync::atomic::{AtomicI32, Ordering};
+    static SAVED: AtomicI32 = AtomicI32::new(-1);
+
+    pub fn silence_stderr() {
+        if SAVED.load(Ordering::SeqCst) >= 0 {
+            return;
+        }
+        unsafe {
+            let saved = libc::dup(2);
+            let null = libc::open(b"/dev/null\0".as_ptr() as *const libc::c_char, libc::O_WRONLY);
+            if saved >= 0 && null >= 0 {
+                libc::dup2(null, 2);
+                libc::close(null);
+                SAVED.store(saved, Ordering::SeqCst);
+            }
+        }
+    }
+
+    pub fn restore_stderr() {
+        let saved = SAVED.swap(-1, Ordering::SeqCst);
+        if saved >= 0 {
+            unsafe {
+                libc::dup2(saved, 2);
+                libc::close(saved);
+            }
+        }
+    }
+}
+
+/// Machinery failure (exit 2) with stderr restored first.
+pub fn fail(msg: &str) -> ! {
+    quiet::restore_stderr();
+    mc_core::report::machinery_failure(msg)
+}
